@@ -33,7 +33,7 @@ EXPLANATION = (
     ' '
     'R-C18.7 _get_field_type_change reports a type change only after comparing the field classes.'
     ' '
-    'R-C18.8 only run_mutation / add_sql / to_sql close the open ModelMutator; R-C18.9 = R-C02.15.')
+    'R-C18.8 only run_mutation / add_sql / to_sql close the open ModelMutator; R-C18.9 = R-C02.15; R-C18.10 the result variable generate_table_op_sql returns is bound only by the merge decision (alias of the previous result, or a fresh one): no op branch re-binds it afterwards.')
 NOT_DECIDED = (
     'Rebuild counts for all sequences (needs execution and counting on the '
     'statement trace).')
@@ -159,6 +159,42 @@ def r2_merge_reuses_result(ctx):
             ctx.finding(f, rets[0] if rets else None, 'generate_table_op_sql '
                         'does not return the result object it merged into',
                         key='return-other')
+        # ... and that variable is not re-bound once the merge decision
+        # has been taken: a branch that *assigns* its backend result to it
+        # (instead of add()ing it) hands back a fresh result, which the
+        # caller renders as a rebuild of its own
+        ctx.rule('R-C18.10')
+        rvars = {r.value.id for r in rets if isinstance(r.value, ast.Name)}
+        after = set()
+        for a in aliased:
+            for s_ in g.succs(a, False):
+                after |= g.reachable([s_], follow_exc=False)
+        n_bind = 0
+        for n in g.nodes:
+            if not (n.kind == 'stmt' and isinstance(
+                    n.ast, (ast.Assign, ast.AugAssign, ast.AnnAssign))):
+                continue
+            tg = n.ast.targets if isinstance(n.ast, ast.Assign) else \
+                [n.ast.target]
+            if not any(isinstance(x, ast.Name) and x.id in rvars
+                       for tt in tg for x in ast.walk(tt)):
+                continue
+            n_bind += 1
+            if n.id in after:
+                ctx.finding(f, n.ast, 'generate_table_op_sql re-binds the '
+                            'result it returns after aliasing the previous '
+                            'result for a mergeable op '
+                            '(%s): this operation is never merged into the '
+                            'operations queued before it on the table and '
+                            'gets a table rebuild of its own' %
+                            ' '.join(unparse(n.ast).split())[:80],
+                            key='result-rebound-after-merge-decision')
+            else:
+                ctx.ok(f, 'result variable bound by the merge decision',
+                       n.ast)
+        ctx.floor('bindings of the returned result in generate_table_op_sql',
+                  n_bind, 2)
+        ctx.rule('R-C18.2')
     m = p.func('db.common', 'BaseEvolutionOperations._are_ops_mergeable')
     rets = [n for n in walk_no_nested(m.node) if isinstance(n, ast.Return)]
     params = [x for x in m.params if x != 'self']
